@@ -1,6 +1,8 @@
 import SecsModel.Drv.Util
 import SecsModel.Model.SM
 import SecsModel.Model.SMSched
+import SecsModel.Model.Ctrl
+import SecsModel.Spec.Machines
 -- DRIVER-DOMAIN: sm
 /-! Driver domain `sm` (engine model).
 
@@ -9,6 +11,10 @@ sm run     P=<parents> T=<transitions> H=<handlers> I=<cur> R=<requests>
 sm sched   P=… T=… H=… I=<cur> A=<name> B=<name> S=<tid>.<label>,…
 sm shipped <ConnSM|CommSM|CtrlSM> I=<state name> R=<requests>          (no handler requests)
 sm table   <ConnSM|CommSM|CtrlSM>
+sm reftable <ConnSM|CommSM|CtrlSM>                                   the reference definition (Spec.Machines), same format as `table`
+sm ref     <ConnSM|CommSM> R=<requests>                              reference definition interpreted by the engine model, from its initial state;
+sm ref     CtrlSM <initial_control_state> <LOCAL|REMOTE> R=<requests>  … with the generated forwarders; answer by NAME:
+           ok cur=<NAME> active=<NAME+NAME…> log=<l.NAME,e.NAME,c.transition,…> res=<r,r,…>
 
 parents     := p,p,…          p = index of the parent or `-`
 transitions := name:src+src>dst,…      or `-`
@@ -122,7 +128,41 @@ def showResult (t : Thread) : String :=
   | .done (some e) => showFail e
   | pc => "at." ++ pc.label
 
+def refOf : String → Option Spec.Machines.RefMachine
+  | "ConnSM" => some Spec.Machines.conn | "CommSM" => some Spec.Machines.comm | "CtrlSM" => some Spec.Machines.ctrl | _ => none
+
+def showStNamed (t : MachineTable) (m : MDef) (st : St) : String :=
+  let act := (List.range m.n).filter st.active
+  let ev : Ev → String
+    | .enter s => "e." ++ stateName t s | .leave s => "l." ++ stateName t s | .called n => "c." ++ n
+  s!"cur={stateName t st.cur} active={"+".intercalate (act.map (stateName t))} log={",".intercalate (st.log.map ev)}"
+
+def runReqsNamed (t : MachineTable) (m : MDef) (h : Handlers) : St → List String → Nat → List String → String
+  | st, [], _, acc => s!"ok {showStNamed t m st} res={",".intercalate acc.reverse}"
+  | st, r :: rest, i, acc =>
+    match perform m h runFuel st r with
+    | .ok s1 => runReqsNamed t m h s1 rest (i+1) ("ok" :: acc)
+    | .fail .fuel _ => s!"ok diverges={i}"
+    | .fail e s1 => runReqsNamed t m h s1 rest (i+1) (showFail e :: acc)
+
 def handle : List String → String
+  | ["reftable", name] =>
+    match refOf name with
+    | some r => showTable r.toTable
+    | none => "bad-op"
+  | ["ref", name, r] =>
+    match refOf name, kv "R" r with
+    | some rm, some rs =>
+      let t := rm.toTable
+      runReqsNamed t (ofTable t) noHandlers (initOf t) (splitList "," rs) 0 []
+    | _, _ => "bad-op"
+  | ["ref", "CtrlSM", initial, sub, r] =>
+    match kv "R" r with
+    | some rs =>
+      let t := Spec.Machines.ctrl.toTable
+      let c : Model.Gem.Ctrl.CState := { cur := 0, flags := [], remote := sub == "REMOTE", initial := initial }
+      runReqsNamed t (ofTable t) (Model.Gem.Ctrl.handlers c none) (initOf t) (splitList "," rs) 0 []
+    | none => "bad-op"
   | ["run", p, t, h, i, r] =>
     match kv "P" p >>= parseParents, kv "T" t >>= parseTrans, kv "H" h >>= parseHandlers, kv "I" i >>= String.toNat?, kv "R" r with
     | some ps, some ts, some hs, some c, some rs =>
